@@ -175,7 +175,7 @@ def compute():
                          and len(c.args) == 1 and isinstance(c.args[0], ast.Name) and c.args[0].id == h.name)
     facts["extract_g_unwrap"] = _guarded_sites(ei, lambda c: _is_name_call(c, "unwrap_stackitem"), appends)
     facts["extract_g_iter"] = _guarded_sites(
-        ei, lambda c: _is_name_call(c, "next") and len(c.args) == 1 and isinstance(c.args[0], ast.Name) and c.args[0].id == "it", appends)
+        ei, lambda c: _is_name_call(c, "next") and len(c.args) == 1 and isinstance(c.args[0], ast.Name), appends)
     facts["extract_g_ctx"] = _guarded_sites(ei, lambda c: _is_name_call(c, "contexts_active_in_frame"), appends)
     facts["extract_g_fill"] = _guarded_sites(ei, lambda c: _is_name_call(c, "fill_context"), appends)
     facts["extract_g_elab"] = _guarded_sites(ei, lambda c: _is_name_call(c, "elaborate_frame"), appends)
